@@ -32,6 +32,14 @@ CHECKS = {
   "held on every string up to the length bound over the stress alphabet (exhaustive under the bound) in the parameter hosts, plus random longer strings; value equality read from the real catalog, error positions compared with a reference tokenizer",
   "trusts the 15-line reference tokenizer for quoted parameters written from the property statement",
   "runtime monitoring: execution vs a small executable reference model, bounded-exhaustive input enumeration"),
+ "C15": ("exploration",
+  "held on every text up to the symbol bound (exhaustive under the bound) through the real normaliser, and end to end in four hosts and two spellings for the texts the language does not cut; relations from the statement, not a second implementation",
+  "trusts the repo's public IsStartWithDirective to decide which texts the bare spelling would cut (those are only checked through the hook)",
+  "runtime monitoring: relations between source text and observed catalog text, metamorphic equality of the two spellings, bounded-exhaustive enumeration"),
+ "C19": ("exploration",
+  "held on all first-segment strings up to the bound (exhaustive) for injectivity of the automatic name, and on the generated tag documents for precedence, sharing, titles and rejection of undeclared tags",
+  "trusts the verif-tagged accessors to the real name/title functions; precedence reference is 10 lines written from the statement",
+  "runtime monitoring: execution vs reference model (precedence) and exhaustive collision search over the real naming function"),
 }
 
 def main():
